@@ -194,6 +194,26 @@ fn local_time(
     }
 }
 
+/// Returns the start of the current second, minute, hour or day as a wall-clock time under
+/// the UTC offset in force at `current`. Looking the wall-clock time up in the time zone
+/// instead can yield an instant before a clock change that is a whole interval or more in the
+/// past, and with it a "next" roll time that is not in the future.
+fn truncated_time(
+    current: &DateTime<Local>,
+    year: i32,
+    month: u32,
+    day: u32,
+    hour: u32,
+    min: u32,
+    sec: u32,
+) -> DateTime<Local> {
+    current
+        .offset()
+        .with_ymd_and_hms(year, month, day, hour, min, sec)
+        .unwrap()
+        .with_timezone(&Local)
+}
+
 impl TimeTrigger {
     /// Returns a new trigger which rolls the log once it has passed the
     /// specified time.
@@ -256,35 +276,35 @@ impl TimeTrigger {
         if let TimeTriggerInterval::Week(n) = interval {
             let week0 = current.iso_week().week0() as i64;
             let weekday = current.weekday().num_days_from_monday() as i64; // Monday is the first day of the week
-            let time = local_time(&current, year, month, day, 0, 0, 0);
+            let time = truncated_time(&current, year, month, day, 0, 0, 0);
             let increment = if modulate { n - week0 % n } else { n };
             return time + Duration::weeks(increment) - Duration::days(weekday);
         }
 
         if let TimeTriggerInterval::Day(n) = interval {
             let ordinal0 = current.ordinal0() as i64;
-            let time = local_time(&current, year, month, day, 0, 0, 0);
+            let time = truncated_time(&current, year, month, day, 0, 0, 0);
             let increment = if modulate { n - ordinal0 % n } else { n };
             return time + Duration::days(increment);
         }
 
         let hour = current.hour();
         if let TimeTriggerInterval::Hour(n) = interval {
-            let time = local_time(&current, year, month, day, hour, 0, 0);
+            let time = truncated_time(&current, year, month, day, hour, 0, 0);
             let increment = if modulate { n - (hour as i64) % n } else { n };
             return time + Duration::hours(increment);
         }
 
         let min = current.minute();
         if let TimeTriggerInterval::Minute(n) = interval {
-            let time = local_time(&current, year, month, day, hour, min, 0);
+            let time = truncated_time(&current, year, month, day, hour, min, 0);
             let increment = if modulate { n - (min as i64) % n } else { n };
             return time + Duration::minutes(increment);
         }
 
         let sec = current.second();
         if let TimeTriggerInterval::Second(n) = interval {
-            let time = local_time(&current, year, month, day, hour, min, sec);
+            let time = truncated_time(&current, year, month, day, hour, min, sec);
             let increment = if modulate { n - (sec as i64) % n } else { n };
             return time + Duration::seconds(increment);
         }
